@@ -12,7 +12,7 @@ import (
 func init() {
 	register("P-FILERENDER-ORDER", "File.Render: the body is rendered into a private buffer before the import block is printed and nothing that can register an import runs afterwards; the source buffer receives header comments, a blank line exactly if there are headers, package comments, the package clause, `// import \"path\"` exactly if CanonicalPath is set, a blank line, the import block, the body — in that order", 14, ruleFileRenderOrder)
 	register("P-IMPORTBLOCK", "renderImports: an import line carries an alias exactly if the entry is flagged alias and the path is not \"C\", printing that entry's name and path; \"C\" is left out of the main block only when a preamble exists; the preamble comments are followed directly by `import \"C\"`", 10, ruleImportBlock)
-	register("P-CTOR", "every File constructor initialises a multi-line Group and fresh, empty imports and hints maps", 9, ruleCtor)
+	register("P-CTOR", "every File constructor initialises a multi-line Group and fresh, empty imports and hints maps; HeaderComment / PackageComment / CgoPreamble append the caller's text unmodified", 9, ruleCtor)
 }
 
 // builderItemTypes: for a call of a builder (package function returning a fresh *Statement) the set
@@ -580,6 +580,38 @@ func ruleCtor(c *Ctx) []Obligation {
 	}
 	if n < 3 {
 		o.undecided("jen", "File constructors", token.NoPos, "expected 3 constructors, found %d", n)
+	}
+	// comment setters: HeaderComment / PackageComment / CgoPreamble append their argument unmodified
+	for _, f := range c.allFuncs(c.Jen) {
+		if f.Parent() != nil || !isFileMethod(c, f) || !isExportedName(f.Name()) || f.Signature.Params().Len() != 1 || f.Signature.Results().Len() != 0 {
+			continue
+		}
+		if b, ok := f.Signature.Params().At(0).Type().Underlying().(*types.Basic); !ok || b.Kind() != types.String {
+			continue
+		}
+		a := c.FA(f)
+		for _, b := range f.Blocks {
+			for _, in := range b.Instrs {
+				st, ok := in.(*ssa.Store)
+				if !ok {
+					continue
+				}
+				fld := fieldOf(st.Addr)
+				if fld != "jen.File.headers" && fld != "jen.File.comments" && fld != "jen.File.cgoPreamble" {
+					continue
+				}
+				okApp := false
+				if call, ok := st.Val.(*ssa.Call); ok {
+					if bi, ok := call.Call.Value.(*ssa.Builtin); ok && bi.Name() == "append" && strings.HasPrefix(a.Desc(call.Call.Args[0]), "recv."+strings.TrimPrefix(fld, "jen.File.")) {
+						if va, ok := varargs(call.Call.Args[1]); ok && len(va) == 1 && va[0] == ssa.Value(f.Params[1]) {
+							okApp = true
+						}
+					}
+				}
+				uncond := len(f.Blocks) == 1
+				o.req(okApp && uncond, fname(f), "appends the caller's text, whole and unmodified, to "+fld, st.Pos(), "stored %s — splitting or rewriting the text changes which comment form (line / block / raw) each piece takes when it is rendered", a.Desc(st.Val))
+			}
+		}
 	}
 	return o.list
 }
